@@ -14,7 +14,7 @@
 //
 // SPDX-License-Identifier: Apache-2.0
 
-use super::Mutator;
+use super::{should_mutate, Mutator};
 use crate::generator::{EntropySource, GenerationSource};
 
 /// Mutates string lengths (truncate or extend).
@@ -32,7 +32,7 @@ impl Mutator for StringLengthMutator {
         source: &mut GenerationSource,
         rate: f64,
     ) -> Option<String> {
-        if source.gen_f64() > rate {
+        if !should_mutate(source, rate) {
             return None;
         }
 
@@ -69,7 +69,7 @@ impl Mutator for StringLengthMutator {
         source: &mut GenerationSource,
         rate: f64,
     ) -> Option<Vec<u8>> {
-        if source.gen_f64() > rate {
+        if !should_mutate(source, rate) {
             return None;
         }
 
